@@ -78,7 +78,9 @@ def gradient_paint(el, bbox, CTM, opacity, svg_quantum=None):
     if units == "objectBoundingBox":
         x0, y0, x1, y1 = bbox
         M = M @ aff(x1 - x0, 0, 0, y1 - y0, x0, y0)
+    Mpre = M.copy()
     M = M @ G
+    has_G = el.get("gradientTransform") is not None
     stops = []
     last = 0.0
     for st in el:
@@ -104,6 +106,9 @@ def gradient_paint(el, bbox, CTM, opacity, svg_quantum=None):
             q = {"p0": svg_quantum, "p1": svg_quantum}
         p = Paint("linear", p0=p0, p1=p1, p2=p2, M=M, stops=stops, extend=ext, period=(0.0, 1.0))
         p.quanta = q
+        if svg_quantum and has_G:
+            p.Mpre, p.G = Mpre, G
+            p.quanta["G"] = svg_quantum
         return p
     if tag != "radialGradient":
         raise Unsupported(tag)
@@ -115,28 +120,36 @@ def gradient_paint(el, bbox, CTM, opacity, svg_quantum=None):
     p = Paint("radial", c0=(fx, fy), r0=fr, c1=(cx, cy), r1=r, M=M, stops=stops, extend=ext, period=(0.0, 1.0))
     if svg_quantum:
         p.quanta = {"c0": svg_quantum, "c1": svg_quantum, "r0": svg_quantum, "r1": svg_quantum}
+        if has_G:
+            p.Mpre, p.G = Mpre, G
+            p.quanta["G"] = svg_quantum
     return p
 
 
 def display_list(svg_text, A, only_id=None, svg_quantum=None, fold=True):
     """svg_text -> [Layer] with coordinates mapped by A (3x3) from the root user space.
 
-    only_id: render only the top-level child with this id (an OT-SVG glyph element)."""
+    only_id: render only the element with this id (an OT-SVG glyph element) in the context of its
+    ancestors.  Each Layer carries `err_svg`: the displacement that half a unit in the 3rd decimal of
+    every transform entry on its path can cause (classification of excesses only, never an allowance)."""
+    import itertools
+
+    from .geom import sigma_max
+
     root = etree.fromstring(svg_text.encode() if isinstance(svg_text, str) else svg_text)
     ids = {}
     for e in root.iter():
         if isinstance(e.tag, str) and e.get("id"):
             ids.setdefault(e.get("id"), e)
     layers = []
-    import itertools
-
     ctr = itertools.count()
 
-    def draw_path(ch, M, fill, fill_opacity, groups, local_sigma, via_use):
+    def draw_path(ch, chain, fill, fill_opacity, groups, via_use, use_sigma):
+        M = A.copy()
+        for T in chain:
+            M = M @ T
         d = ch.get("d")
-        from .geom import sigma_max as _sm
-
-        ftol = max(1e-6, 0.02 / max(1e-9, _sm(M)))
+        ftol = max(1e-6, 0.02 / max(1e-9, sigma_max(M)))
         cs = flatten_svg_d(d, ftol) if d and d.strip() else []
         if fill is None:
             fill = "black"
@@ -152,33 +165,46 @@ def display_list(svg_text, A, only_id=None, svg_quantum=None, fold=True):
         else:
             col = parse_color(fill)
             paint = Paint("solid", color=col, alpha=col[3] * fill_opacity)
-        layers.append(
-            Layer(
-                [apply(M, c) for c in cs],
-                paint,
-                groups,
-                sigma=local_sigma,
-                nseg=count_segments_svg_d(d) if d and d.strip() else 0,
-                ref=ch.get("id"),
-                transformed=via_use,
-            )
+        # error budget of decimal transforms along the chain
+        err = 0.0
+        if cs:
+            pts = np.vstack(cs)
+            outer = A.copy()
+            inner_pts = [None] * len(chain)
+            cur = pts
+            for i in range(len(chain) - 1, -1, -1):
+                inner_pts[i] = cur
+                cur = apply(chain[i], cur)
+            for i, T in enumerate(chain):
+                if not np.allclose(T, I):
+                    R = float(np.abs(inner_pts[i]).max())
+                    err += sigma_max(outer) * 0.0005 * (2 * R + 2)
+                outer = outer @ T
+        L = Layer(
+            [apply(M, c) for c in cs],
+            paint,
+            groups,
+            sigma=use_sigma,
+            nseg=count_segments_svg_d(d) if d and d.strip() else 0,
+            ref=ch.get("id"),
+            transformed=via_use,
         )
+        L.err_svg = err
+        layers.append(L)
 
-    def walk(el, CTM, fill, fo, groups, sig, via_use):
+    def walk(el, chain, fill, fo, groups, via_use, us):
         for ch in el:
             if not isinstance(ch.tag, str):
                 continue
             tag = etree.QName(ch).localname
             if tag in ("defs", "linearGradient", "radialGradient", "title", "desc", "metadata", "clipPath"):
                 continue
-            if only_id is not None and el is root and ch.get("id") != only_id:
-                continue
-            render(ch, CTM, fill, fo, groups, sig, via_use)
+            render(ch, chain, fill, fo, groups, via_use, us)
 
-    def render(ch, CTM, fill, fo, groups, sig, via_use):
+    def render(ch, chain, fill, fo, groups, via_use, us):
         tag = etree.QName(ch).localname
         T = parse_transform(ch.get("transform"))
-        M = CTM @ T
+        chain2 = chain + [T]
         f = _style(ch, "fill", fill)
         fo2 = _style(ch, "fill-opacity")
         fo = fo if fo2 is None else float(fo2)
@@ -187,22 +213,40 @@ def display_list(svg_text, A, only_id=None, svg_quantum=None, fold=True):
         if op is not None and float(op) != 1.0:
             g = groups + ((("el", next(ctr)), float(op)),)
         if tag in ("g", "svg"):
-            walk(ch, M, f, fo, g, sig, via_use)
+            walk(ch, chain2, f, fo, g, via_use, us)
         elif tag == "path":
-            draw_path(ch, M, f, fo, g, sig, via_use)
+            draw_path(ch, chain2, f, fo, g, via_use, us)
         elif tag == "use":
             U = aff(1, 0, 0, 1, float(ch.get("x", "0")), float(ch.get("y", "0")))
             href = ch.get(XLINK) or ch.get("href")
             if not href or href[1:] not in ids:
                 raise Unsupported(f"dangling use {href}")
             target = ids[href[1:]]
-            from .geom import sigma_max
-
-            render(target, M @ U, f, fo, g, sig * max(1.0, sigma_max(T)), True)
+            render(target, chain2 + [U], f, fo, g, True, us * max(1.0, sigma_max(T)))
         else:
             raise Unsupported(tag)
 
-    walk(root, A, None, 1.0, (), 1.0, False)
+    if only_id is None:
+        walk(root, [], None, 1.0, (), False, 1.0)
+    else:
+        el = ids.get(only_id)
+        if el is None:
+            raise Unsupported("no element with id " + only_id)
+        anc = []
+        p = el.getparent()
+        while p is not None:
+            anc.append(p)
+            p = p.getparent()
+        chain, fill, fo, groups = [], None, 1.0, ()
+        for a_ in reversed(anc):
+            if a_ is root:
+                continue
+            chain = chain + [parse_transform(a_.get("transform"))]
+            fill = _style(a_, "fill", fill)
+            op = _style(a_, "opacity")
+            if op is not None and float(op) != 1.0:
+                groups = groups + ((("el", next(ctr)), float(op)),)
+        render(el, chain, fill, fo, groups, False, 1.0)
     if fold:
         fold_single_groups(layers)
     return layers
